@@ -114,6 +114,25 @@ SameTwice == \A i, j \in 1..Len(log) : (log[i].page = log[j].page /\ log[i].line
 \* the state left behind after a page is the state a fresh instance is left in
 EndState == (cur = "-" /\ calls > 0) =>
                \E p \in Pages : lastH[cw] = Alone(cfgid, p, NLines).h /\ lastLine[cw] = Alone(cfgid, p, NLines).ll
+-----------------------------------------------------------------------------
+(* Refinement: PageDecoder implements PageDecoderInd, the unbounded abstraction whose inductive invariant (isolation for any
+   number of pages and lines) is proved with Apalache.  A context (sequence of <<page, line>> tags) is mapped to its summary
+   [empty, page of its tags, largest line, mixed pages]; the ghost f is the summary of the last logged decoder call.        *)
+PNo(p) == PageNo(p) + 1
+MaxLineOf(c) == IF c = <<>> THEN 0 ELSE CHOOSE m \in {c[k][2] : k \in 1..Len(c)} : \A k \in 1..Len(c) : c[k][2] <= m
+SumPage(c) == IF c = <<>> THEN 0 ELSE PNo(c[1][1])
+SumMixed(c) == Cardinality({c[k][1] : k \in 1..Len(c)}) > 1
+LastFrom == IF log = <<>> THEN <<>> ELSE log[Len(log)].from
+Abs == INSTANCE PageDecoderInd WITH
+          Legacy <- Legacy, carry <- CarryOf(cfgid), cur <- (IF cur = "-" THEN 0 ELSE PNo(cur)), pos <- pos,
+          hHas <- lastH[cw].has, hEmpty <- (lastH[cw].c = <<>>), hPage <- SumPage(lastH[cw].c), hMax <- MaxLineOf(lastH[cw].c),
+          hMixed <- SumMixed(lastH[cw].c),
+          llHas <- (lastLine[cw] # NoLine), llPage <- (IF lastLine[cw] = NoLine THEN 0 ELSE PNo(lastLine[cw][1])),
+          llLine <- (IF lastLine[cw] = NoLine THEN 0 ELSE lastLine[cw][2]),
+          fEmpty <- (LastFrom = <<>>), fMixed <- SumMixed(LastFrom), fPage <- SumPage(LastFrom), fMax <- MaxLineOf(LastFrom),
+          fAtPage <- (IF log = <<>> THEN 0 ELSE PNo(log[Len(log)].page)), fAtLine <- (IF log = <<>> THEN 0 ELSE log[Len(log)].line)
+Refines == Abs!Spec
+
 TypeOK == /\ cfgid \in 0..(NConfigs - 1) /\ cur \in Pages \cup {"-"} /\ cw \in Workers
           /\ pos \in 0..(NLines + 1) /\ calls \in 0..MaxCalls
 =============================================================================
